@@ -106,6 +106,8 @@ class Shadow:
         p = self.resolve(sup)
         if p is None:
             return "TypeNotFoundError"
+        if p in self.K["final"]:
+            return "ValueError"  # primitive array types cannot be subtyped, however the supertype is named
         self.parent[name] = p
         self.own[name] = []
         self.order.append(name)
